@@ -370,6 +370,12 @@ def long_check(case):
             slice(0, ns, 30), slice(1, ns, 12)]
     for th in ths:
         sels += [th - 1, th, th + 1, slice(th - 2, th + 3), slice(0, th + 5, 9)]
+    if suffix == ".bin":
+        # arrays of sample indices in the integer types such indices are stored in (spike samples as int32 / uint32, short tables as int16 / uint16 / uint8):
+        # the index times the channel count leaves the range of the narrow types long before the index does
+        for dt, top in ((np.int16, 32767), (np.uint16, 65535), (np.uint8, 255), (np.int32, ns - 1), (np.uint32, ns - 1), (np.int64, ns - 1)):
+            top = min(top, ns - 1)
+            sels.append(np.array([0, 5, top // 3, top - 1, top, 86, 171], dtype=dt))
     ntr = 0
     try:
         for sel in sels:
